@@ -513,23 +513,23 @@ theorem shift_eq_none {k : Nat} {r : Option (Nat × Nat × Bool)} : shift k r = 
   | none => simp
   | some v => rcases v with ⟨s, e, f⟩; simp [shift]
 
-theorem searchDelim_cons_none {bnd : Bytes} {a : UInt8} {t : Bytes}
-    (h : matchDelimAt bnd false (a :: t) = none) :
-    searchDelim bnd false (a :: t) = shift 1 (searchDelim bnd false t) := by
+theorem searchDelim_cons_none {bnd : Bytes} {o : Bool} {a : UInt8} {t : Bytes}
+    (h : matchDelimAt bnd o (a :: t) = none) :
+    searchDelim bnd o (a :: t) = shift 1 (searchDelim bnd o t) := by
   simp only [searchDelim, h]
-  cases searchDelim bnd false t with
+  cases searchDelim bnd o t with
   | none => rfl
   | some v => rcases v with ⟨s, e, f⟩; rfl
 
-theorem searchDelim_cons_some {bnd : Bytes} {a : UInt8} {t : Bytes} {n : Nat} {f : Bool}
-    (h : matchDelimAt bnd false (a :: t) = some (n, f)) :
-    searchDelim bnd false (a :: t) = some (0, n, f) := by
+theorem searchDelim_cons_some {bnd : Bytes} {o : Bool} {a : UInt8} {t : Bytes} {n : Nat} {f : Bool}
+    (h : matchDelimAt bnd o (a :: t) = some (n, f)) :
+    searchDelim bnd o (a :: t) = some (0, n, f) := by
   simp only [searchDelim, h]
 
-theorem searchDelim_cons_eq_none {bnd : Bytes} {a : UInt8} {t : Bytes} :
-    searchDelim bnd false (a :: t) = none ↔
-      matchDelimAt bnd false (a :: t) = none ∧ searchDelim bnd false t = none := by
-  cases hm : matchDelimAt bnd false (a :: t) with
+theorem searchDelim_cons_eq_none {bnd : Bytes} {o : Bool} {a : UInt8} {t : Bytes} :
+    searchDelim bnd o (a :: t) = none ↔
+      matchDelimAt bnd o (a :: t) = none ∧ searchDelim bnd o t = none := by
+  cases hm : matchDelimAt bnd o (a :: t) with
   | none => rw [searchDelim_cons_none hm, shift_eq_none]; simp
   | some v => rcases v with ⟨n, f⟩; rw [searchDelim_cons_some hm]; simp
 
@@ -1298,5 +1298,412 @@ theorem dataPhase_true_sound {bnd : Bytes} (hb : BoundaryOk bnd) (chunks : List 
               rw [← hcat, List.append_assoc p buf', drop_add_append]
             rw [this]
             exact hrel' hf
+
+/-! ### the retained search position (PREAMBLE) -/
+
+theorem matchDelimAt_iff' {bnd s : Bytes} {o : Bool} {n : Nat} {f : Bool} :
+    matchDelimAt bnd o s = some (n, f) ↔
+      ∃ r m, (o = false → 0 < lbLen s) ∧ s.drop (lbLen s) = delim bnd ++ r ∧ matchTail r = some (m, f) ∧
+        n = lbLen s + (bnd.length + 2) + m := by
+  cases o with
+  | false =>
+    rw [matchDelimAt_iff]
+    constructor
+    · rintro ⟨r, m, h1, h2, h3, h4⟩; exact ⟨r, m, fun _ => h1, h2, h3, h4⟩
+    · rintro ⟨r, m, h1, h2, h3, h4⟩; exact ⟨r, m, h1 rfl, h2, h3, h4⟩
+  | true =>
+    unfold matchDelimAt
+    simp only [Bool.not_true, Bool.false_and, Bool.false_eq_true, if_false]
+    constructor
+    · intro h
+      split at h
+      · rename_i hp
+        rw [List.isPrefixOf_iff_prefix] at hp
+        rcases hp with ⟨r, hr⟩
+        have hd : (s.drop (lbLen s)).drop (bnd.length + 2) = r := by rw [← hr]; simp
+        rw [hd] at h
+        cases hm : matchTail r with
+        | none => rw [hm] at h; simp at h
+        | some v =>
+          rw [hm] at h
+          rcases v with ⟨m, f'⟩
+          simp at h
+          exact ⟨r, m, by simp, by rw [← hr]; rfl, h.2 ▸ hm, by omega⟩
+      · simp at h
+    · rintro ⟨r, m, _, hd, hm, rfl⟩
+      have hp : (45 :: 45 :: bnd).isPrefixOf (s.drop (lbLen s)) = true := by
+        rw [hd, List.isPrefixOf_iff_prefix]; exact List.prefix_append _ _
+      rw [hp]
+      simp only [if_true]
+      have hd2 : (s.drop (lbLen s)).drop (bnd.length + 2) = r := by rw [hd]; simp [delim]
+      rw [hd2, hm]
+
+theorem matchTail_restrict_false {rx c : Bytes} {m : Nat} (h : matchTail (rx ++ c) = some (m, false))
+    (hm : m ≤ rx.length) : matchTail rx = some (m, false) := by
+  rcases matchTail_false_iff.1 h with ⟨hh, a, t, he, hall, hn, rfl⟩
+  have hpos := lbLen_pos_of_nl (t := t) hn
+  -- hh ++ [a] is a prefix of rx
+  have hpre : (hh ++ [a]) <+: rx := by
+    have h1 : (hh ++ [a]) <+: (rx ++ c) := by rw [he]; exact ⟨t, by simp⟩
+    exact List.prefix_of_prefix_length_le h1 (List.prefix_append rx c) (by simp; omega)
+  rcases hpre with ⟨t1, rfl⟩
+  have ht : t = t1 ++ c := by
+    have : hh ++ a :: (t1 ++ c) = hh ++ a :: t := by rw [← he]; simp
+    exact (List.cons.inj (List.append_cancel_left this)).2.symm
+  subst ht
+  apply matchTail_false_iff.2
+  refine ⟨hh, a, t1, by simp, hall, hn, ?_⟩
+  congr 1
+  cases t1 with
+  | nil =>
+    simp only [List.nil_append, List.length_append, List.length_cons, List.length_nil] at hm hpos ⊢
+    have h2 : 0 < lbLen [a] := lbLen_pos_of_nl hn
+    have h3 := lbLen_le_length [a]
+    simp only [List.length_cons, List.length_nil] at h3
+    omega
+  | cons y t1 => exact lbLen_append_of_two_le (s := a :: y :: t1) c (by simp)
+
+theorem matchDelimAt_restrict_false {bnd x c : Bytes} {o : Bool} {n : Nat}
+    (h : matchDelimAt bnd o (x ++ c) = some (n, false)) (hn : n ≤ x.length) :
+    matchDelimAt bnd o x = some (n, false) := by
+  rcases matchDelimAt_iff'.1 h with ⟨r, m, ho, hd, hm, rfl⟩
+  have hx2 : 2 ≤ x.length := by omega
+  have hlb : lbLen (x ++ c) = lbLen x := lbLen_append_of_two_le c hx2
+  rw [hlb] at hd ho hn
+  rw [List.drop_append_of_le_length (lbLen_le_length x)] at hd
+  -- delim is a prefix of x.drop lb
+  have hlen : (delim bnd).length ≤ (x.drop (lbLen x)).length := by
+    simp [delim]; omega
+  have hp : (delim bnd).isPrefixOf (x.drop (lbLen x) ++ c) = true := by
+    rw [hd, List.isPrefixOf_iff_prefix]; exact List.prefix_append _ _
+  rw [isPrefixOf_append_of_length_le c hlen, List.isPrefixOf_iff_prefix] at hp
+  rcases hp with ⟨rx, hrx⟩
+  rw [← hrx, List.append_assoc] at hd
+  have hr : r = rx ++ c := (List.append_cancel_left hd).symm
+  subst hr
+  have hrxlen : m ≤ rx.length := by
+    have := congrArg List.length hrx
+    simp [delim] at this
+    have := lbLen_le_length x
+    omega
+  exact matchDelimAt_iff'.2 ⟨rx, m, ho, hrx.symm, matchTail_restrict_false hm hrxlen, by rw [hlb]⟩
+
+theorem matchDelimAt_restrict_true {bnd x c : Bytes} {o : Bool} {n : Nat}
+    (h : matchDelimAt bnd o (x ++ c) = some (n, true))
+    (hlen : 2 + (bnd.length + 2) + 2 ≤ x.length) :
+    ∃ n', matchDelimAt bnd o x = some (n', true) := by
+  rcases matchDelimAt_iff'.1 h with ⟨r, m, ho, hd, hm, rfl⟩
+  have hx2 : 2 ≤ x.length := by omega
+  have hlb : lbLen (x ++ c) = lbLen x := lbLen_append_of_two_le c hx2
+  rw [hlb] at hd ho
+  rw [List.drop_append_of_le_length (lbLen_le_length x)] at hd
+  rcases matchTail_true_iff.1 hm with ⟨r2, rfl, _⟩
+  have hl2 := lbLen_le_two x
+  have hlen' : (delim bnd ++ [45, 45]).length ≤ (x.drop (lbLen x)).length := by
+    simp [delim]; omega
+  have hp : (delim bnd ++ [45, 45]).isPrefixOf (x.drop (lbLen x) ++ c) = true := by
+    rw [hd, List.isPrefixOf_iff_prefix]; exact ⟨r2, by simp⟩
+  rw [isPrefixOf_append_of_length_le c hlen', List.isPrefixOf_iff_prefix] at hp
+  rcases hp with ⟨rx, hrx⟩
+  refine ⟨_, matchDelimAt_iff'.2 ⟨45 :: 45 :: rx, _, ho, ?_, matchTail_final (by simp [List.isPrefixOf]), rfl⟩⟩
+  rw [← hrx]; simp
+
+/-- the leftmost match is a match at its start and there is none before -/
+theorem searchDelim_some_iff {bnd : Bytes} {o : Bool} {S : Bytes} {s e : Nat} {f : Bool}
+    (h : searchDelim bnd o S = some (s, e, f)) :
+    s ≤ S.length ∧ s ≤ e ∧ matchDelimAt bnd o (S.drop s) = some (e - s, f) ∧
+      ∀ j, j < s → matchDelimAt bnd o (S.drop j) = none := by
+  induction S generalizing s e with
+  | nil => simp [searchDelim] at h
+  | cons a t ih =>
+    cases hm : matchDelimAt bnd o (a :: t) with
+    | some v =>
+      rcases v with ⟨n, f'⟩
+      rw [searchDelim_cons_some hm] at h
+      simp at h
+      rcases h with ⟨rfl, rfl, rfl⟩
+      exact ⟨by simp, by omega, by simpa using hm, by intro j hj; omega⟩
+    | none =>
+      rw [searchDelim_cons_none hm] at h
+      rcases shift_eq_some h with ⟨s2, e2, ht, rfl, rfl⟩
+      rcases ih ht with ⟨h1, h2, h3, h4⟩
+      refine ⟨by simp; omega, by omega, ?_, ?_⟩
+      · have : e2 + 1 - (s2 + 1) = e2 - s2 := by omega
+        rw [this]; simpa using h3
+      · intro j hj
+        cases j with
+        | zero => simpa using hm
+        | succ j => simpa using h4 j (by omega)
+
+theorem searchDelim_none_drop {bnd : Bytes} {o : Bool} {S : Bytes} (h : searchDelim bnd o S = none)
+    (j : Nat) : matchDelimAt bnd o (S.drop j) = none := by
+  induction S generalizing j with
+  | nil => cases o <;> simp [matchDelimAt, lbLen]
+  | cons a t ih =>
+    rcases searchDelim_cons_eq_none.1 h with ⟨hm, ht⟩
+    cases j with
+    | zero => simpa using hm
+    | succ j => simpa using ih ht j
+
+/-- skipping positions at which nothing matches does not change the search result -/
+theorem searchDelim_skip {bnd : Bytes} {o : Bool} (S : Bytes) (k : Nat)
+    (h : ∀ j, j < k → matchDelimAt bnd o (S.drop j) = none) :
+    searchDelim bnd o S = shift k (searchDelim bnd o (S.drop k)) := by
+  induction k generalizing S with
+  | zero => simp
+  | succ k ih =>
+    cases S with
+    | nil => simp [searchDelim]
+    | cons a t =>
+      have h0 := h 0 (by omega)
+      simp only [List.drop_zero] at h0
+      rw [searchDelim_cons_none h0, List.drop_succ_cons, ih t (fun j hj => by simpa using h (j + 1) (by omega)),
+        shift_shift]
+
+/-- what the retained `_search_position` must guarantee: the first delimiter, when it is not the
+closing one, is no longer than `len(boundary) + SEARCH_EXTRA_LENGTH` (line breaks and transport
+padding included) -/
+def PadOk (bnd S : Bytes) : Prop :=
+  match searchDelim bnd true S with
+  | some (s, e, false) => e - s ≤ bnd.length + searchExtra
+  | _ => True
+
+instance (bnd S : Bytes) : Decidable (PadOk bnd S) := by
+  unfold PadOk
+  split <;> infer_instance
+
+theorem searchExtra_eq : searchExtra = 8 := by decide
+
+theorem searchDelim_of_match_drop {bnd : Bytes} {o : Bool} {S : Bytes} {j n : Nat} {f : Bool}
+    (h : matchDelimAt bnd o (S.drop j) = some (n, f)) : searchDelim bnd o S ≠ none := by
+  intro hn
+  rw [searchDelim_none_drop hn j] at h; simp at h
+
+theorem searchDelimFrom_eq_shift (bnd : Bytes) (o : Bool) (pos : Nat) (buf : Bytes) :
+    searchDelimFrom bnd o pos buf = shift pos (searchDelim bnd o (buf.drop pos)) := by
+  unfold searchDelimFrom
+  cases searchDelim bnd o (buf.drop pos) with
+  | none => rfl
+  | some v => rcases v with ⟨s, e, f⟩; rfl
+
+/-- **The retained search position is irrelevant (PREAMBLE).** After an unsuccessful search of
+buffer `b`, searching `b ++ c` from `len(b) - len(boundary) - SEARCH_EXTRA_LENGTH` finds the same
+first delimiter as searching from 0, provided the first delimiter is not longer than the retained
+tail (`PadOk`). -/
+theorem searchPos_irrelevant_lemma {bnd b c : Bytes} (hnone : searchDelim bnd true b = none)
+    (hpad : PadOk bnd (b ++ c)) :
+    searchDelimFrom bnd true (b.length - bnd.length - searchExtra) (b ++ c) =
+      searchDelim bnd true (b ++ c) := by
+  rw [searchDelimFrom_eq_shift]
+  symm
+  apply searchDelim_skip
+  intro j hj
+  cases hS : searchDelim bnd true (b ++ c) with
+  | none => exact searchDelim_none_drop hS j
+  | some v =>
+    rcases v with ⟨s, e, f⟩
+    rcases searchDelim_some_iff hS with ⟨hs1, hs2, hmatch, hbefore⟩
+    have hge : b.length - bnd.length - searchExtra ≤ s := by
+      apply Nat.le_of_not_lt
+      intro hlt
+      have hsb : s ≤ b.length := by omega
+      rw [List.drop_append_of_le_length hsb] at hmatch
+      have hxlen : (b.drop s).length = b.length - s := by simp
+      rw [searchExtra_eq] at hlt
+      cases f with
+      | true =>
+        rcases matchDelimAt_restrict_true hmatch (by rw [hxlen]; omega) with ⟨n', hn'⟩
+        exact searchDelim_of_match_drop hn' hnone
+      | false =>
+        have hp : e - s ≤ bnd.length + searchExtra := by simpa [PadOk, hS] using hpad
+        rw [searchExtra_eq] at hp
+        have := matchDelimAt_restrict_false hmatch (by rw [hxlen]; omega)
+        exact searchDelim_of_match_drop this hnone
+    exact hbefore j (by omega)
+
+/-! ### the retained search position (PART): blank-line search -/
+
+theorem blankLen_le (s : Bytes) : blankLen s ≤ 4 := by
+  unfold blankLen; split; · omega
+  split; · omega
+  split <;> omega
+
+theorem blankLen_le_length (s : Bytes) : blankLen s ≤ s.length := by
+  unfold blankLen
+  split
+  · rename_i h; rw [List.isPrefixOf_iff_prefix] at h; simpa using h.length_le
+  split
+  · rename_i h; rw [List.isPrefixOf_iff_prefix] at h; simpa using h.length_le
+  split
+  · rename_i h; rw [List.isPrefixOf_iff_prefix] at h; simpa using h.length_le
+  · omega
+
+/-- `BLANK_LINE_RE` anchored: the match only depends on the first `blankLen` bytes -/
+theorem blankLen_restrict {x c : Bytes} (h : blankLen (x ++ c) ≤ x.length) :
+    blankLen x = blankLen (x ++ c) := by
+  unfold blankLen at h ⊢
+  by_cases h1 : [13, 10, 13, 10].isPrefixOf (x ++ c) = true
+  · rw [if_pos h1] at h ⊢
+    rw [isPrefixOf_append_of_length_le c (by simpa using h)] at h1
+    rw [if_pos h1]
+  · rw [if_neg h1] at h ⊢
+    have h1' : ¬ [13, 10, 13, 10].isPrefixOf x = true := by
+      intro hh; exact h1 (isPrefixOf_append_of_isPrefixOf c hh)
+    rw [if_neg h1']
+    by_cases h2 : [13, 13].isPrefixOf (x ++ c) = true
+    · rw [if_pos h2] at h ⊢
+      rw [isPrefixOf_append_of_length_le c (by simpa using h)] at h2
+      rw [if_pos h2]
+    · rw [if_neg h2] at h ⊢
+      have h2' : ¬ [13, 13].isPrefixOf x = true := by
+        intro hh; exact h2 (isPrefixOf_append_of_isPrefixOf c hh)
+      rw [if_neg h2']
+      by_cases h3 : [10, 10].isPrefixOf (x ++ c) = true
+      · rw [if_pos h3] at h ⊢
+        rw [isPrefixOf_append_of_length_le c (by simpa using h)] at h3
+        rw [if_pos h3]
+      · rw [if_neg h3]
+        have h3' : ¬ [10, 10].isPrefixOf x = true := by
+          intro hh; exact h3 (isPrefixOf_append_of_isPrefixOf c hh)
+        rw [if_neg h3']
+
+def shift2 (k : Nat) : Option (Nat × Nat) → Option (Nat × Nat)
+  | some (s, e) => some (s + k, e + k)
+  | none => none
+
+@[simp] theorem shift2_zero (r : Option (Nat × Nat)) : shift2 0 r = r := by
+  cases r with
+  | none => rfl
+  | some v => rcases v with ⟨s, e⟩; rfl
+
+theorem shift2_shift2 (j k : Nat) (r : Option (Nat × Nat)) : shift2 j (shift2 k r) = shift2 (k + j) r := by
+  cases r with
+  | none => rfl
+  | some v => rcases v with ⟨s, e⟩; simp [shift2, Nat.add_assoc]
+
+theorem searchBlank_cons_zero {a : UInt8} {t : Bytes} (h : blankLen (a :: t) = 0) :
+    searchBlank (a :: t) = shift2 1 (searchBlank t) := by
+  simp only [searchBlank, h]
+  cases searchBlank t with
+  | none => rfl
+  | some v => rcases v with ⟨s, e⟩; rfl
+
+theorem searchBlank_none_drop {S : Bytes} (h : searchBlank S = none) (j : Nat) :
+    blankLen (S.drop j) = 0 := by
+  induction S generalizing j with
+  | nil => simp [blankLen, List.isPrefixOf]
+  | cons a t ih =>
+    have h0 : blankLen (a :: t) = 0 := by
+      apply Nat.eq_zero_of_not_pos; intro hp
+      simp [searchBlank, hp] at h
+    rw [searchBlank_cons_zero h0] at h
+    have ht : searchBlank t = none := by
+      cases hx : searchBlank t with
+      | none => rfl
+      | some v => rw [hx] at h; rcases v with ⟨s, e⟩; simp [shift2] at h
+    cases j with
+    | zero => simpa using h0
+    | succ j => simpa using ih ht j
+
+theorem searchBlank_skip (S : Bytes) (k : Nat) (h : ∀ j, j < k → blankLen (S.drop j) = 0) :
+    searchBlank S = shift2 k (searchBlank (S.drop k)) := by
+  induction k generalizing S with
+  | zero => simp
+  | succ k ih =>
+    cases S with
+    | nil => simp [searchBlank, shift2]
+    | cons a t =>
+      have h0 := h 0 (by omega)
+      simp only [List.drop_zero] at h0
+      rw [searchBlank_cons_zero h0, List.drop_succ_cons,
+        ih t (fun j hj => by simpa using h (j + 1) (by omega)), shift2_shift2]
+
+theorem searchBlankFrom_eq_shift (pos : Nat) (buf : Bytes) :
+    searchBlankFrom pos buf = shift2 pos (searchBlank (buf.drop pos)) := by
+  unfold searchBlankFrom
+  cases searchBlank (buf.drop pos) with
+  | none => rfl
+  | some v => rcases v with ⟨s, e⟩; rfl
+
+/-- **The retained search position is irrelevant (PART).** No hypothesis is needed: a blank line is
+at most 4 bytes long and `SEARCH_EXTRA_LENGTH` bytes are retained. -/
+theorem searchPos_irrelevant_blank_lemma {b c : Bytes} (hnone : searchBlank b = none) :
+    searchBlankFrom (b.length - searchExtra) (b ++ c) = searchBlank (b ++ c) := by
+  rw [searchBlankFrom_eq_shift]
+  symm
+  apply searchBlank_skip
+  intro j hj
+  rw [searchExtra_eq] at hj
+  have hjb : j ≤ b.length := by omega
+  rw [List.drop_append_of_le_length hjb]
+  have h4 := blankLen_le (b.drop j ++ c)
+  have hr := blankLen_restrict (x := b.drop j) (c := c) (by simp; omega)
+  rw [← hr]
+  exact searchBlank_none_drop hnone j
+
+/-! ### no delimiter in the stream: the chunked loop never reports one -/
+
+theorem dataPhase_false_none {bnd : Bytes} (hb : BoundaryOk bnd) (chunks : List Bytes) :
+    ∀ (buf acc : Bytes), searchDelim bnd false (buf ++ chunks.flatten) = none →
+      ∃ p, dataPhase bnd false buf acc chunks = .ok (acc ++ p, none) ∧
+        p <+: buf ++ chunks.flatten := by
+  induction chunks with
+  | nil =>
+    intro buf acc h
+    simp only [List.flatten_nil, List.append_nil] at h ⊢
+    rcases dataLoop_false_holds hb (buf.length + 1) buf acc h with ⟨p, buf', hrun, hcat, _⟩
+    exact ⟨p, by simp [dataPhase, hrun], ⟨buf', hcat⟩⟩
+  | cons c cs ih =>
+    intro buf acc h
+    have hsb : searchDelim bnd false buf = none := by
+      cases hx : searchDelim bnd false buf with
+      | none => rfl
+      | some v =>
+        rcases v with ⟨s, e, f⟩
+        rcases searchDelim_append_stable hb hx (c :: cs).flatten with ⟨e', he', _⟩
+        rw [h] at he'; simp at he'
+    rcases dataLoop_false_holds hb (buf.length + 1) buf acc hsb with ⟨p, buf', hrun, hcat, hsafe⟩
+    have h2 : searchDelim bnd false ((buf' ++ c) ++ cs.flatten) = none := by
+      have := hsafe (c :: cs).flatten
+      rw [h] at this
+      have := shift_eq_none.1 this.symm
+      simpa using this
+    rcases ih (buf' ++ c) (acc ++ p) h2 with ⟨p2, hrun2, hpre⟩
+    refine ⟨p ++ p2, by simp only [dataPhase, hrun]; rw [hrun2, List.append_assoc], ?_⟩
+    rw [← hcat]
+    rcases hpre with ⟨t, ht⟩
+    exact ⟨t, by rw [← ht]; simp⟩
+
+theorem dataPhase_true_none {bnd : Bytes} (hb : BoundaryOk bnd) (chunks : List Bytes) :
+    ∀ (buf acc : Bytes), 0 < lbLen buf → searchDelim bnd false (buf ++ chunks.flatten) = none →
+      ∃ p, dataPhase bnd true buf acc chunks = .ok (acc ++ p, none) := by
+  induction chunks with
+  | nil =>
+    intro buf acc hl h
+    simp only [List.flatten_nil, List.append_nil] at h
+    rcases dataLoop_true_holds hb (buf.length + 1) buf acc hl h with hw | ⟨p, buf', hrun, _⟩
+    · exact ⟨[], by simp [dataPhase, hw]⟩
+    · exact ⟨p.drop (lbLen buf), by simp [dataPhase, hrun]⟩
+  | cons c cs ih =>
+    intro buf acc hl h
+    have hsb : searchDelim bnd false buf = none := by
+      cases hx : searchDelim bnd false buf with
+      | none => rfl
+      | some v =>
+        rcases v with ⟨s, e, f⟩
+        rcases searchDelim_append_stable hb hx (c :: cs).flatten with ⟨e', he', _⟩
+        rw [h] at he'; simp at he'
+    rcases dataLoop_true_holds hb (buf.length + 1) buf acc hl hsb with hw | ⟨p, buf', hrun, hcat, _, _, hsafe⟩
+    · have hl' : 0 < lbLen (buf ++ c) := Nat.lt_of_lt_of_le hl (lbLen_append_ge buf c)
+      have h2 : searchDelim bnd false ((buf ++ c) ++ cs.flatten) = none := by simpa using h
+      rcases ih (buf ++ c) acc hl' h2 with ⟨p2, hrun2⟩
+      exact ⟨p2, by simp only [dataPhase, hw]; exact hrun2⟩
+    · have h2 : searchDelim bnd false ((buf' ++ c) ++ cs.flatten) = none := by
+        have := hsafe (c :: cs).flatten
+        rw [h] at this
+        have := shift_eq_none.1 this.symm
+        simpa using this
+      rcases dataPhase_false_none hb cs (buf' ++ c) (acc ++ p.drop (lbLen buf)) h2 with ⟨p2, hrun2, _⟩
+      exact ⟨p.drop (lbLen buf) ++ p2, by simp only [dataPhase, hrun]; rw [hrun2, List.append_assoc]⟩
 
 end Wz.Multipart
